@@ -1,6 +1,7 @@
 import CoapVerif.Lemmas.StreamFeed
 import CoapVerif.Lemmas.StreamWs
 import CoapVerif.Lemmas.StreamWsSafe
+import CoapVerif.Lemmas.StreamWsClose
 /-
 C05 — stream transports deliver the same messages however the byte stream is cut.
 
@@ -399,6 +400,52 @@ example : wsObs (Coap.M.Ws.feed .client [] { up := true } (segment [0x82, 0x7e, 
 example : WsInv .client { up := true, rdHeader := [0x82, 3, 7], allHdrIn := true, dataSize := 3, dataOfs := 1, rxData := some [7] }
     (.fr [0x82, 3, 7]) :=
   Or.inr ⟨rfl, rfl, 0x82, 3, [], [7], by decide⟩
+
+/-! ### coap_ws_close: draining the socket for the peer's Close frame
+
+`wsClose` / `closeDrain` (Model/WsReader.lean) = the `while (!recv_close && count > 0 …)` loop: select(), then
+`coap_ws_read` into a 100-byte stack buffer.  Entered by the application at any time and by the reader itself right
+after it refused a frame, so the statements are for EVERY reader state (no invariant) and every pending byte string.
+Tied to the code by the `wsclose` lines of the check (recv_close and the number of bytes left unread). -/
+
+/-- the drain terminates after at most 5 `coap_ws_read` calls, whatever the reader state and whatever the peer has
+sent (each call's own `goto next_frame` loop is bounded by the bytes at hand: the model's fuel) -/
+theorem ws_close_drain_bounded (mode : Mode) (st : Coap.M.Ws.St) (av : Bytes) :
+    (wsClose mode st av).2.2.2 ≤ 5 := closeDrain_calls_le mode drainCount st av
+
+/-- nothing pending: nothing is read, the reader state is untouched, no Close frame seen -/
+theorem ws_close_drain_idle (mode : Mode) (st : Coap.M.Ws.St) : wsClose mode st [] = (false, st, [], 0) :=
+  closeDrain_idle mode drainCount st
+
+/-- `recv_close` is only reported when a Close frame header (opcode 8) has been completed in `rd_header` -/
+theorem ws_close_drain_recv (mode : Mode) (st : Coap.M.Ws.St) (av : Bytes) (h : (wsClose mode st av).1 = true) :
+    ∃ b0 b1 r, (wsClose mode st av).2.1.rdHeader = b0 :: b1 :: r ∧ b0.toNat % 16 = 8 :=
+  closeDrain_recv mode drainCount st av h
+
+/-- the "Get in (remaining) data" part of `coap_ws_read`, ANY reader state and ANY caller buffer size `datalen`: a
+payload handed back fits the caller's buffer and bytes are only consumed from the front of what is available — the
+clause the former defect G violated (a frame in progress longer than coap_ws_close's 100-byte buffer) -/
+theorem ws_read_data_fits (mode : Mode) (st : Coap.M.Ws.St) (av data : Bytes) (datalen : Nat) :
+    (readData mode st av data datalen).2.2.length ≤ av.length ∧
+    ∀ pl, (readData mode st av data datalen).1 = .pkt pl → pl.length ≤ datalen :=
+  readData_fits mode st av data datalen
+
+/-- four pending 14-byte frames are discarded and the Close frame behind them is found by the 5th call; with six of
+them it is not reached (5 calls, 16 bytes left unread); frames that arrive together with the Close frame in ONE
+14-byte header read stay in `rd_header`: the socket is not readable any more, the loop only waits (1 call, Close frame
+not seen — an observation, not a safety matter); a frame of 101 bytes does not fit the 100-byte buffer: refused, no
+further byte is read; after an unmasked frame to a server the drain cannot progress -/
+example : (wsClose .client { up := true } ((List.replicate 4 [0x82, 12, 0, 1,2,3,4,5,6,7,8,9,10,11]).flatten ++ [0x88, 0])).1 = true ∧
+    (wsClose .client { up := true } ((List.replicate 4 [0x82, 12, 0, 1,2,3,4,5,6,7,8,9,10,11]).flatten ++ [0x88, 0])).2.2.2 = 5 := by
+  decide +kernel
+example : (wsClose .client { up := true } ((List.replicate 6 [0x82, 12, 0, 1,2,3,4,5,6,7,8,9,10,11]).flatten ++ [0x88, 0])).1 = false ∧
+    (wsClose .client { up := true } ((List.replicate 6 [0x82, 12, 0, 1,2,3,4,5,6,7,8,9,10,11]).flatten ++ [0x88, 0])).2.2.1.length = 16 := by
+  decide +kernel
+example : (wsClose .client { up := true } [0x82, 2, 0, 1, 0x82, 2, 0, 2, 0x88, 2, 3, 0xe8]).1 = false ∧
+    (wsClose .client { up := true } [0x82, 2, 0, 1, 0x82, 2, 0, 2, 0x88, 2, 3, 0xe8]).2.2.2 = 1 := by decide +kernel
+example : (wsClose .client { up := true } ([0x82, 101] ++ List.replicate 101 0 ++ [0x88, 0])).1 = false ∧
+    (wsClose .client { up := true } ([0x82, 101] ++ List.replicate 101 0 ++ [0x88, 0])).2.2.1.length = 91 := by decide +kernel
+example : (wsClose .server { up := true } [0x82, 2, 0, 1, 0x88, 0x80, 1, 2, 3, 4]).1 = false := by decide
 
 end Ws
 
